@@ -136,6 +136,20 @@ fn lookahead_mode_cfgs() -> Vec<Cfg> {
             CMode { name: "B".into(), pats: vec![la("b", 0, false, "b"), CPat::new("a+", 1), CPat::new("b", 2)], transitions: vec![(0, 0), (2, 1)] },
         ],
     });
+    // one token type, one regex, another lookahead in each mode
+    v.push(Cfg {
+        modes: vec![
+            CMode { name: "A".into(), pats: vec![la("a", 0, true, "b"), CPat::new("b", 1), CPat::new("a", 2)], transitions: vec![(1, 1)] },
+            CMode { name: "B".into(), pats: vec![la("a", 0, false, "b"), CPat::new("b", 1), CPat::new("a", 2)], transitions: vec![(1, 0)] },
+        ],
+    });
+    v.push(Cfg {
+        modes: vec![
+            CMode { name: "A".into(), pats: vec![la("a", 0, true, "b"), CPat::new("[ab]", 1)], transitions: vec![(1, 1)] },
+            CMode { name: "B".into(), pats: vec![la("a", 0, true, "a"), CPat::new("[ab]", 1)], transitions: vec![(0, 0), (1, 2)] },
+            CMode { name: "C".into(), pats: vec![CPat::new("a", 0), la("b", 1, false, "a")], transitions: vec![(0, 0)] },
+        ],
+    });
     v
 }
 
@@ -157,6 +171,8 @@ fn newline_cfgs() -> Vec<Cfg> {
         Cfg::single(vec![CPat::new("a+", 0), CPat::new("é", 1)]),
         Cfg::single(vec![CPat::new("(a|é)+\\n?", 0), CPat::new("\\n+", 1), CPat::new("b", 2)]),
         Cfg { modes: vec![mode("A", &[("a", 0), ("\\n", 1)], &[(1, 1)]), mode("B", &[("b\\n", 2), ("[ab]", 0)], &[(2, 0)])] },
+        // whole lines as tokens, whatever they contain
+        Cfg::single(vec![CPat::new(".+", 0), CPat::new("\\n", 1)]),
     ]
 }
 
@@ -210,6 +226,9 @@ pub fn families(prop: &str, tier: Tier) -> Vec<Family> {
                 });
             }
             f.push(Family { stateless_depth: 0, name: "unusual numbers".into(), cfgs: odd, inputs: inputs(&['a', 'b', 'x'], if q { 4 } else { 5 }), ops: ops.clone(), describe: "token types 255/256/65535/65536/u32::MAX in patterns and transitions, a mode without patterns as a target, self loops on the last mode".into() });
+            // the patterns of the current mode include their lookaheads: modes that share token
+            // types (and regexes) but differ in the lookahead
+            f.push(Family { stateless_depth: 0, name: "lookahead modes".into(), cfgs: lookahead_mode_cfgs(), inputs: inputs(&['a', 'b', 'x'], if q { 4 } else { 5 }), ops: ops.clone(), describe: "modes with positive/negative lookaheads; the same token type (and regex) with another lookahead in another mode".into() });
             // gaps: only next/set_mode driven (peek with unmatched characters is C11's)
             f.push(Family {
                 stateless_depth: 0,
@@ -226,7 +245,17 @@ pub fn families(prop: &str, tier: Tier) -> Vec<Family> {
                 stateless_depth: 0,
                 name: "with_positions".into(),
                 cfgs: newline_cfgs(),
-                inputs: { let mut v = inputs(&['a', 'b', '\n', 'é'], l); v.extend(inputs(&['a', '\r', '\n'], l)); v.sort(); v.dedup(); v },
+                inputs: {
+                    let mut v = inputs(&['a', 'b', '\n', 'é'], l);
+                    v.extend(inputs(&['a', '\r', '\n'], l));
+                    // characters whose low byte is that of a line feed (U+010A, U+1F40A) and the
+                    // other line separators of Unicode, none of which starts a new line
+                    v.extend(inputs(&['a', '\n', '\u{10a}', '\u{1f40a}'], l));
+                    v.extend(inputs(&['\n', '\u{2028}', '\u{85}', 'b'], l.min(4)));
+                    v.sort();
+                    v.dedup();
+                    v
+                },
                 ops: OpSet { next: true, peeks: vec![], adv: vec![], offsets: Offsets::Scanned, set_modes: true, with_positions: true, positions: true, with_offset_ops: false },
                 describe: "WithPositions<FindMatches>: next / set_offset(every already scanned boundary) / set_mode; position(o) for every o <= contiguously scanned prefix in every state".into(),
             });
@@ -244,7 +273,10 @@ pub fn families(prop: &str, tier: Tier) -> Vec<Family> {
             let lists = pattern_lists();
             f.push(Family { stateless_depth: 0, name: "mode-graphs-2 (subset)".into(), cfgs: mode_graphs(2, &lists[1..4], if q { 13 } else { 3 }), inputs: inputs(&['a', 'b', 'x'], if q { 3 } else { 4 }), ops: ops.clone(), describe: "2 modes x 3 pattern lists x every 13th (thorough: 3rd) of the 729 transition tables".into() });
             f.push(Family { stateless_depth: 0, name: "lookahead modes".into(), cfgs: lookahead_mode_cfgs(), inputs: inputs(&['a', 'b', 'x'], if q { 4 } else { 5 }), ops: ops.clone(), describe: "modes with positive/negative lookaheads and transitions".into() });
-            f.push(Family { stateless_depth: 0, name: "multibyte+newline".into(), cfgs: newline_cfgs(), inputs: inputs(&['a', 'b', '\n', 'é'], if q { 3 } else { 4 }), ops, describe: "newline/multi-byte configurations of C09".into() });
+            f.push(Family { stateless_depth: 0, name: "multibyte+newline".into(), cfgs: newline_cfgs(), inputs: inputs(&['a', 'b', '\n', 'é'], if q { 3 } else { 4 }), ops: ops.clone(), describe: "newline/multi-byte configurations of C09".into() });
+            // longer inputs with characters nothing matches: resets far enough into the input that
+            // what lies behind the reset point is longer than what follows
+            f.push(Family { stateless_depth: 0, name: "gaps, longer inputs".into(), cfgs: gap_cfgs()[..4].to_vec(), inputs: inputs(&['a', 'x'], if q { 6 } else { 7 }), ops, describe: "pattern sets with characters nothing matches on every input over {a,x} up to length 6 (thorough 7)".into() });
         }
         "C11" => {
             let ops = OpSet { next: true, peeks: vec![0, 1, 2, usize::MAX, usize::MAX - 1], adv: vec![], offsets: Offsets::None, set_modes: true, with_positions: false, positions: false, with_offset_ops: false };
@@ -504,6 +536,51 @@ pub fn run(prop: &'static str, tier: Tier) -> ! {
             scripted += n;
         }
         fam_json.push(json!({"family": "scripted: Scanner::set_mode before find_iter, second find_iter after a partial first one, mode_name on scanner/iterator/WithPositions", "configurations": cfgs.len(), "inputs": ins.len(), "scripts_run": scripted}));
+    }
+    if prop == "C06" {
+        // mode indices beyond 2^8 and 2^16: a ring of N modes (mode i: `a` => 0 -> mode i+1, `b` => 1
+        // stays, `x` => 2 -> mode (i+N/2) mod N), driven by next() and set_mode on the iterator
+        use scnr::ScannerModeSwitcher;
+        for n_modes in [300usize, 65_600] {
+            scripted += 1;
+            let modes: Vec<CMode> = (0..n_modes).map(|i| CMode { name: format!("M{i}"), pats: vec![CPat::new("a", 0), CPat::new("b", 1), CPat::new("x", 2)], transitions: { let mut t = vec![(0, (i + 1) % n_modes), (2, (i + n_modes / 2) % n_modes)]; t.sort(); t } }).collect();
+            let cfg = Cfg { modes };
+            let r = bridge::catch(|| -> Result<(), String> {
+                let sc = cfg.build_uncached().map_err(|e| format!("does not build: {e}"))?;
+                for start in [0usize, 254, 255, 256, 65_534, 65_535, 65_536, n_modes - 2, n_modes - 1] {
+                    if start >= n_modes {
+                        continue;
+                    }
+                    let input = "abaxbaa";
+                    let mut it = sc.find_iter(input);
+                    it.set_mode(start);
+                    let mut mode = start;
+                    if it.current_mode() != mode {
+                        return Err(format!("after set_mode({start}) current_mode() is {}", it.current_mode()));
+                    }
+                    if it.mode_name(mode) != Some(&format!("M{mode}")) {
+                        return Err(format!("mode_name({mode}) is {:?}", it.mode_name(mode)));
+                    }
+                    for (k, ch) in input.chars().enumerate() {
+                        let m = it.next().ok_or(format!("no token #{k} after set_mode({start})"))?;
+                        let want_tt = match ch { 'a' => 0, 'b' => 1, _ => 2 };
+                        mode = match ch { 'a' => (mode + 1) % n_modes, 'x' => (mode + n_modes / 2) % n_modes, _ => mode };
+                        if (m.token_type(), m.start(), m.end()) != (want_tt, k, k + 1) || it.current_mode() != mode {
+                            return Err(format!("after set_mode({start}), token #{k} is {:?} and current_mode() {} (expected type {want_tt} at {k}..{} and mode {mode})", (m.token_type(), m.start(), m.end()), it.current_mode(), k + 1));
+                        }
+                    }
+                }
+                Ok(())
+            });
+            let problem = match r { Ok(Ok(())) => None, Ok(Err(e)) => Some(e), Err(p) => Some(format!("panicked: {p}")) };
+            if let Some(p) = problem {
+                // an error from build is accepted for the large ring (C17's reading); a wrong mode is not
+                if !(p.starts_with("does not build") && n_modes > 65_535) {
+                    total.viol.add("", || Violation { key: String::new(), summary: format!("ring of {n_modes} modes: {p}"), replay: json!({"configuration": format!("{n_modes} modes M0..; mode i: a=>0, b=>1, x=>2; transitions (0 -> i+1 mod N), (2 -> i+N/2 mod N)"), "input": "abaxbaa", "calls": ["find_iter(input)", "set_mode(start)", "next() x 7 with current_mode() after each"], "problem": p}) });
+                }
+            }
+        }
+        fam_json.push(json!({"family": "rings of 300 and 65 600 modes: transitions to the next mode and half way round, started by set_mode at the u8/u16 borders", "scripts_run": 2}));
     }
     if prop == "C09" {
         // long inputs: more than 2^16 lines, a column beyond 2^16, multi-byte lines; one pass from
